@@ -795,6 +795,13 @@ def run(chk):
             chk.sample({"program": prog.text, "sched": sched, "stops": s.stop_records[:8]})
     probe.stop()
     model.stop()
+    if thorough:
+        # independent re-check of props/C19.vo and everything it depends on (measured: 2 min 15 s)
+        with common.Lock("coq"):
+            rc, out = common.run(["coqchk", "-o", "-silent", "-Q", "theories", "Mos", "Mos.props.C19"], cwd=common.COQ, timeout=1500)
+        chk.extra["coqchk"] = {"rc": rc, "tail": out[-300:]}
+        if rc != 0 or "Axioms: <none>" not in out:
+            chk.tie_break("coqchk", "coqchk does not accept props/C19.vo without axioms: %s" % out[-800:])
     chk.cov["rule"] = ("one evaluation = one inspected stop of a real debug session (registers read twice, frame read twice, compared with "
                        "the reference run located by the CYC counter); distinct = distinct (program, command, previous instruction index, "
                        "instruction index); every one is non-trivial (a stop reached through pause / breakpoint / step on a program with loops)")
